@@ -19,7 +19,9 @@
 package didjwk
 
 import (
+	"crypto/ecdsa"
 	"encoding/base64"
+	"errors"
 	"fmt"
 	"github.com/nuts-foundation/nuts-node/vdr/resolver"
 	"reflect"
@@ -78,6 +80,15 @@ func (w Resolver) Resolve(id did.DID, _ *resolver.ResolveMetadata) (*did.Documen
 	publicRawKey, err := jwk.PublicRawKeyOf(key)
 	if err != nil {
 		return nil, nil, fmt.Errorf("failed to get PublicRawKeyOf(key): %w", err)
+	}
+	// The JWK parser accepts EC keys whose coordinates are not a point on the curve (e.g. more bytes than the curve size),
+	// converting such a key back to a JWK panics.
+	if ecKey, ok := publicRawKey.(*ecdsa.PublicKey); ok {
+		p := ecKey.Curve.Params().P
+		if ecKey.X == nil || ecKey.Y == nil || ecKey.X.Sign() < 0 || ecKey.Y.Sign() < 0 || ecKey.X.Cmp(p) >= 0 || ecKey.Y.Cmp(p) >= 0 ||
+			!ecKey.Curve.IsOnCurve(ecKey.X, ecKey.Y) {
+			return nil, nil, errors.New("invalid JWK: EC public key is not a point on its curve")
+		}
 	}
 
 	// Create a new DID verification method.
